@@ -49,3 +49,26 @@ Definition g_plain_swapped : hgraph :=
 
 Definition s_plain : sigma :=
   mkSig [(2, 2); (1, 1); (0, 0)] [("x", BVal 0)] [(KOut 2 0, Some 3); (KOut 1 0, Some 2); (KOut 0 0, Some 1)].
+
+(* Add(OrValue([Neg(x), Neg(Neg(x))]), x): the first alternative matches locally with x := Neg(a) and is kept;
+   the conflict on the second operand then fails the whole match although the second alternative is an instance *)
+Definition p_choice : gpat :=
+  mkGP [un "Neg" (PVar "x" false);                    (* 0 *)
+        un "Neg" (PVar "x" false);                    (* 1 *)
+        un "Neg" (POut 1 0);                          (* 2 *)
+        bin "Add" (POr 0 None None [(0%Z, POut 0 0); (1%Z, POut 2 0)]) (PVar "x" false)]   (* 3 *)
+       ["x"] [POut 3 0].
+Definition g_choice : hgraph :=
+  mkHG [hn "Neg" [Some 0] [1]; hn "Neg" [Some 1] [2]; hn "Add" [Some 2; Some 0] [3]] [3] [] [].
+Definition s_choice : sigma :=
+  mkSig [(3, 2); (2, 1); (1, 0)] [("x", BVal 0)]
+        [(KOut 3 0, Some 3); (KOut 2 0, Some 2); (KOut 1 0, Some 1); (KObj 0, Some 2)].
+
+(* two output nodes: return Relu(x), Neg(x) *)
+Definition p_two_roots : gpat :=
+  mkGP [un "Relu" (PVar "x" false); un "Neg" (PVar "x" false)] ["x"] [POut 0 0; POut 1 0].
+(* two Neg nodes: the first (on another input) is tried first and rejected *)
+Definition g_two_roots : hgraph :=
+  mkHG [hn "Relu" [Some 0] [2]; hn "Neg" [Some 1] [3]; hn "Neg" [Some 0] [4]] [2; 3; 4] [] [].
+Definition s_two_roots : sigma :=
+  mkSig [(0, 0); (1, 2)] [("x", BVal 0)] [(KOut 0 0, Some 2); (KOut 1 0, Some 4)].
